@@ -121,6 +121,7 @@ def run_sequence(res, exe, rng, first, forced=None):
                 beh = tr.behaviour if (step == tr.k or tr.behaviour in ("exp-bigger", "announce-bigger")) else "ok"
                 resp = None
                 final_after = False
+                cut = surplus = False
                 if tr.up:
                     if tr.size <= 4:
                         resp = bytes([0x43 | ((4 - tr.size) << 2)]) + m3 + (tr.data + bytes(4))[:4]
@@ -132,10 +133,12 @@ def run_sequence(res, exe, rng, first, forced=None):
                         last = pos + 7 >= tr.size
                         if beh == "early" and not last:
                             last = True
+                            cut = True             # the server ends the transfer before the announced size is delivered
                         resp = bytes([(tog << 4) | ((7 - len(chunk)) << 1) | (1 if last else 0)]) + chunk + bytes(7 - len(chunk))
                         if beh == "oversize":
                             resp = bytes([(tog << 4) | 0]) + gen.rand_bytes(rng, 7)      # one more (non-final) segment than announced
                             last = False
+                            surplus = tr.size - pos < 7      # this segment carries more data than the announced size leaves room for
                         pos += len(chunk)
                         final_after = last
                 else:
@@ -237,9 +240,11 @@ def run_sequence(res, exe, rng, first, forced=None):
                     final_after = False
                     expect_code = "any"
                 elif beh == "early":
-                    expect_code = "any"
+                    # fewer bytes than announced: the buffer does not hold the object, so the transfer may not end as a success
+                    expect_code = "nonzero" if cut else 0
                 elif beh == "oversize":
-                    expect_code = "any"
+                    # more bytes than announced: ends now, and not as a success (the client may tell the server with an abort frame)
+                    expect_code = "nonzero" if surplus else "any"
                 if beh in ("silent", "late"):
                     # no answer in time: timeout expected exactly tr.timeout ticks after the last request frame
                     evs = sim.cmd("tick %d" % (tr.timeout + 3))
